@@ -49,7 +49,7 @@ ILL_FORMED = [
     "1.a", "null.a", "'a'.b", "[1].a", "true.a", "1.5.a", "b'a'.b", "{}.a.b", "x.a", "x.a.b.c", "x[0]", "x()", "x(1)", "x.f()", "1.f()", "null.f()", "[].f(1, 2, 3)",
     "'a'.contains(1)", "'a'.contains()", "'a'.startsWith(1)", "'a'.endsWith(null)", "'a'.matches(1)", "'a'.matches('(')", "'a'.matches('[')", "'a'.matches('*')", "'a'.matches('a{2,1}')",
     "1.contains(1)", "[1].contains(1)", "{}.contains(1)", "null.contains(1)", "contains()", "contains('a')", "startsWith('a', 'a', 'a')", "matches('a')",
-    "1.size()", "null.size()", "true.size()", "1.5.size()", "'a'.size(1)", "1.getFullYear()", "'a'.getHours()", "null.getDate()", "duration('1s').getFullYear()", "duration('1s').getHours('UTC')",
+    "1.size()", "null.size()", "true.size()", "1.5.size()", "'a'.size(1)", "1.getFullYear()", "'a'.getHours()", "null.getDate()", "duration('1s').getFullYear()", "duration('1s').getHours('UTC')", "getMinutes(duration('1s'), 'UTC')",
     "timestamp('2009-02-13T23:31:30Z').getHours(1)", "timestamp('2009-02-13T23:31:30Z').getHours('Nowhere/City')", "timestamp('2009-02-13T23:31:30Z').getHours('+99:99')",
     "timestamp('2009-02-13T23:31:30Z').getHours('')", "timestamp('2009-02-13T23:31:30Z').getHours(null)", "timestamp('2009-02-13T23:31:30Z').getHours('a', 'b')",
     "timestamp('0001-01-01T00:00:00Z').getFullYear('-01:00')", "timestamp('9999-12-31T23:59:59Z').getFullYear('+01:00')", "timestamp('0001-01-01T00:00:00Z').getDayOfYear('-14:00')",
@@ -255,6 +255,28 @@ def check_eval(acc, src: str, benv, origin: str, node=None, tag=None):
     return ok
 
 
+SWEEP_FUNCS = [
+    "bool", "bytes", "contains", "double", "duration", "endsWith", "getDate", "getDayOfMonth", "getDayOfWeek", "getDayOfYear", "getFullYear", "getHours",
+    "getMilliseconds", "getMinutes", "getMonth", "getSeconds", "int", "list", "map", "matches", "null_type", "size", "startsWith", "string", "timestamp", "type", "uint", "dyn",
+]
+SWEEP_ARGS = [
+    "1", "1u", "1.5", "'a'", "b'a'", "true", "null", "[1]", "{'a': 1}", "timestamp('2009-02-13T23:31:30Z')", "duration('3601s')", "int", "'UTC'", "'-08:00'", "x",
+]
+
+
+def function_sweep(max_arity):
+    """every built-in function name x every tuple of argument kinds (arity 0..max_arity), function and method form"""
+    import itertools
+
+    for f in SWEEP_FUNCS:
+        for n in range(max_arity + 1):
+            for args in itertools.product(SWEEP_ARGS, repeat=n):
+                yield f"{f}({', '.join(args)})"
+                if n >= 1:
+                    recv = args[0] if args[0][0] not in "1-" else f"({args[0]})"
+                    yield f"{recv}.{f}({', '.join(args[1:])})"
+
+
 def limit_probes():
     out = []
     out.append(" + ".join(["1"] * 32))
@@ -309,6 +331,23 @@ def run(ctx):
                         continue
                 check_eval(acc, src, benv, origin, node=node, tag=origin)
     acc.sample({"program": ILL_FORMED[0]}, limit=1)
+
+    # ---- programs: every function x argument-kind tuple (arity <= 2; <= 3 in the thorough tier), both call forms
+    nsweep = 0
+    for i, src in enumerate(function_sweep(3 if ctx.thorough else 2)):
+        if not ctx.mine(i):
+            continue
+        if ctx.time_left() < 0.5 * ctx.budget_s:
+            break
+        try:
+            node = larkconv.conv(parser.parse(src))
+        except Exception:
+            node = None
+        check_eval(acc, src, benv_x, "function-sweep", node=node, tag="function-sweep")
+        nsweep += 1
+    else:
+        acc.exhaustive.append("28 built-in function names x all argument-kind tuples over 15 kinds up to arity %d x function/method form" % (3 if ctx.thorough else 2))
+    acc.hook("function-sweep", nsweep)
 
     # ---- programs: corpus (all of it, whatever it uses) under both runners
     for i, it in enumerate(items):
